@@ -1,4 +1,5 @@
-(* Time_sweep.v — one 400-year cycle (146097 days = 20871 weeks) checked by computation.
+(* Time_sweep.v — one 400-year cycle (146097 days = 20871 weeks) checked by computation:
+   every day for the civil date, every Monday for the ISO week.
    Everything else about the calendar is lifted from this by the periodicity lemmas of
    Time_proofs (the period is part of the statements: cycle [0, 146097)). *)
 From TkModel Require Import Base Time.
@@ -6,62 +7,96 @@ From TkSpec Require Import Balance_spec Group_spec.
 From TkProofs Require Import Base_proofs Time_proofs.
 Local Open Scope Z_scope.
 
-(* what is checked for the day r, given c = civil_of_days r and i = iso_of_days r *)
-Definition day_ok_of (r : Z) (c i : Z * Z * Z) : bool :=
+(* --- days: civil date of every day of the cycle --- *)
+Definition civil_ok_of (r : Z) (c : Z * Z * Z) : bool :=
   let '(y, m, d) := c in
-  let '(iy, w, wd) := i in
-  (1 <=? m) && (m <=? 12) && (1 <=? d) && (d <=? days_in_month y m)
-  && (days_of_civil y m d =? r)
-  && (1 <=? w) && (w <=? 53) && (1 <=? wd) && (wd <=? 7)
-  && (days_of_iso iy w wd =? r).
-Definition day_ok (r : Z) : bool := day_ok_of r (civil_of_days r) (iso_of_days r).
+  (1 <=? m) && (m <=? 12) && (1 <=? d) && (d <=? days_in_month y m) && (days_of_civil y m d =? r).
+Definition civil_ok (r : Z) : bool := civil_ok_of r (civil_of_days r).
 Definition dnum (c : Z * Z * Z) : Z := let '(y, m, d) := c in y * 10000 + m * 100 + d.
-Definition wnum (i : Z * Z * Z) : Z := let '(y, w, wd) := i in y * 1000 + w * 10 + wd.
 
-(* n consecutive days from r: each day is ok, and the date number / week-date number
-   strictly exceed those of the day before (pd, pw) *)
-Fixpoint sweep (n : nat) (r pd pw : Z) : bool :=
+(* n consecutive days from r: each is ok and its date number exceeds that of the day before (pd) *)
+Fixpoint sweep_days (n : nat) (r pd : Z) : bool :=
   match n with
   | O => true
   | S n' =>
       let c := civil_of_days r in
-      let i := iso_of_days r in
       let dn := dnum c in
-      let wn := wnum i in
-      day_ok_of r c i && (pd <? dn) && (pw <? wn) && sweep n' (r + 1) dn wn
+      civil_ok_of r c && (pd <? dn) && sweep_days n' (r + 1) dn
   end.
 
 Lemma dnum_num r : dnum (civil_of_days r) = period_num GbDate r.
 Proof. reflexivity. Qed.
-Lemma wnum_num r : wnum (iso_of_days r) = period_num GbIsoWeekDate r.
-Proof. reflexivity. Qed.
 
-Lemma sweep_spec n : forall r pd pw, sweep n r pd pw = true ->
-  (forall z, r <= z < r + Z.of_nat n -> day_ok z = true)
-  /\ (forall z, r <= z < r + Z.of_nat n - 1 ->
-        period_num GbDate z < period_num GbDate (z + 1)
-        /\ period_num GbIsoWeekDate z < period_num GbIsoWeekDate (z + 1))
-  /\ ((0 < n)%nat -> pd < period_num GbDate r /\ pw < period_num GbIsoWeekDate r).
+Lemma sweep_days_spec n : forall r pd, sweep_days n r pd = true ->
+  (forall z, r <= z < r + Z.of_nat n -> civil_ok z = true)
+  /\ (forall z, r <= z < r + Z.of_nat n - 1 -> period_num GbDate z < period_num GbDate (z + 1))
+  /\ ((0 < n)%nat -> pd < period_num GbDate r).
 Proof.
-  induction n as [|n IH]; intros r pd pw H.
+  induction n as [|n IH]; intros r pd H.
   - repeat split; intros; lia.
-  - cbn [sweep] in H. cbv zeta in H. rewrite dnum_num, wnum_num in H.
-    apply andb_true_iff in H. destruct H as [H H3].
+  - cbn [sweep_days] in H. cbv zeta in H. rewrite dnum_num in H.
     apply andb_true_iff in H. destruct H as [H H2].
     apply andb_true_iff in H. destruct H as [H0 H1].
-    apply Z.ltb_lt in H1. apply Z.ltb_lt in H2.
-    destruct (IH _ _ _ H3) as (A & B & C).
+    apply Z.ltb_lt in H1.
+    destruct (IH _ _ H2) as (A & B & C).
     split; [|split].
     + intros z Hz. destruct (Z.eq_dec z r) as [->|Hne]; [exact H0|]. apply A. lia.
     + intros z Hz. destruct (Z.eq_dec z r) as [->|Hne].
       * apply C. lia.
       * apply B. lia.
-    + intros _. split; assumption.
+    + intros _. assumption.
 Qed.
 
 (* the cycle [0, 146097) and the first day of the next one (evaluated once, by the
    kernel's VM, when the proof term is checked) *)
-Lemma cycle_sweep : sweep (Z.to_nat 146098) 0 (-1) (-1) = true.
+Lemma cycle_days : sweep_days (Z.to_nat 146098) 0 (-1) = true.
+Proof. vm_cast_no_check (eq_refl true). Qed.
+
+(* --- weeks: ISO week of every Monday of the cycle (the other six days of a week share
+   its Thursday; that part is closed form in Time_cal_proofs) --- *)
+Definition iso_ok_of (r : Z) (i : Z * Z * Z) : bool :=
+  let '(y, w, wd) := i in
+  (1 <=? w) && (w <=? 53) && (wd =? 1) && (days_of_iso y w wd =? r).
+Definition iso_ok (r : Z) : bool := iso_ok_of r (iso_of_days r).
+Definition wknum (i : Z * Z * Z) : Z := let '(y, w, _) := i in y * 100 + w.
+
+Lemma wknum_num r : wknum (iso_of_days r) = period_num GbIsoWeek r.
+Proof. reflexivity. Qed.
+
+(* n consecutive Mondays r, r+7, ..: each is ok and its week number exceeds that of the week before *)
+Fixpoint sweep_weeks (n : nat) (r pw : Z) : bool :=
+  match n with
+  | O => true
+  | S n' =>
+      let i := iso_of_days r in
+      let wn := wknum i in
+      iso_ok_of r i && (pw <? wn) && sweep_weeks n' (r + 7) wn
+  end.
+
+Lemma sweep_weeks_spec n : forall r pw, sweep_weeks n r pw = true ->
+  (forall k, 0 <= k < Z.of_nat n -> iso_ok (r + 7 * k) = true)
+  /\ (forall k, 0 <= k < Z.of_nat n - 1 ->
+        period_num GbIsoWeek (r + 7 * k) < period_num GbIsoWeek (r + 7 * k + 7))
+  /\ ((0 < n)%nat -> pw < period_num GbIsoWeek r).
+Proof.
+  induction n as [|n IH]; intros r pw H.
+  - repeat split; intros; lia.
+  - cbn [sweep_weeks] in H. cbv zeta in H. rewrite wknum_num in H.
+    apply andb_true_iff in H. destruct H as [H H2].
+    apply andb_true_iff in H. destruct H as [H0 H1].
+    apply Z.ltb_lt in H1.
+    destruct (IH _ _ H2) as (A & B & C).
+    split; [|split].
+    + intros k Hk. destruct (Z.eq_dec k 0) as [->|Hne]; [rewrite Z.mul_0_r, Z.add_0_r; exact H0|].
+      replace (r + 7 * k) with (r + 7 + 7 * (k - 1)) by ring. apply A. lia.
+    + intros k Hk. destruct (Z.eq_dec k 0) as [->|Hne].
+      * rewrite Z.mul_0_r, Z.add_0_r. apply C. lia.
+      * replace (r + 7 * k) with (r + 7 + 7 * (k - 1)) by ring. apply B. lia.
+    + intros _. assumption.
+Qed.
+
+(* day 4 = 1970-01-05 is a Monday; 20871 weeks = one cycle, plus the first Monday of the next *)
+Lemma cycle_weeks : sweep_weeks (Z.to_nat 20872) 4 (-1) = true.
 Proof. vm_cast_no_check (eq_refl true). Qed.
 
 (* numerals: Rust `{}` / zero padding against fixed-width digit strings *)
